@@ -21,9 +21,11 @@
    covers every place of the anchored code where a set is iterated, the scorer
    write pattern, and the call-history logic.  The remaining gap is covered by
    the end-to-end comparison across PYTHONHASHSEEDs in harness/props/C18.py. *)
-From Coq Require Import List Bool Arith ZArith Permutation Sorted.
-From LV Require Import Runtime.SortX Runtime.Determinism Runtime.DeterminismProofs Runtime.DeterminismExec.
+From Coq Require Import List Bool Arith ZArith QArith Permutation Sorted.
+From LV Require Import Runtime.SortX Runtime.Determinism Runtime.DeterminismProofs Runtime.DeterminismExec
+  Runtime.DeterminismDst Runtime.DeterminismDstProofs.
 Import ListNotations.
+Local Open Scope nat_scope.
 
 (* ------------------------------------------------------------------ *)
 (* the uniqueness lemma: a total order on keys + a key injective on the elements
@@ -224,6 +226,82 @@ Proof.
   - vm_compute. reflexivity.
 Qed.
 
+(* the write pattern of the assembly loops of LexStat.get_scorer AND Partial.get_partial_scorer (same
+   iteration space): symmetric for every score function, every sound inventory, every alphabet order *)
+Theorem C18_cscorer_pattern_symmetric :
+  forall (V : Type) (d : V) (chars : list str) (fkeys : list (list str)) (b : list (list V)) (val : nat -> nat -> V),
+    square (length chars) b -> symmetric d b ->
+    symmetric d (assemble (length chars) b (with_values val (scorer_write_indices chars fkeys))).
+Proof. exact (@cscorer_pattern_symmetric). Qed.
+Print Assumptions C18_cscorer_pattern_symmetric.
+
+(* within one language the loop writes (a, b) and later (b, a) with possibly different scores: the LAST
+   write decides both mirrored cells *)
+Theorem C18_scorer_last_write_wins :
+  forall (V : Type) (d : V) (n : nat) (start : list (list V)) (ws : list (nat * nat * V)) (i j : nat) (v : V),
+    square n start -> (i < n)%nat -> (j < n)%nat ->
+    mget d (assemble n start (ws ++ [(i, j, v)])) i j = v /\
+    mget d (assemble n start (ws ++ [(i, j, v)])) j i = v.
+Proof. exact (@assemble_last_write). Qed.
+Print Assumptions C18_scorer_last_write_wins.
+
+Example scorer_pattern_instance :
+  let chars := [[49; 46; 65]; [49; 46; 66]; [49; 46; 88; 46; 45]]%Z in          (* 1.A 1.B 1.X.- *)
+  scorer_write_indices chars [[[49; 46; 66]; [49; 46; 65]]%Z]
+  = [(1, 1); (1, 0); (1, 2); (0, 1); (0, 0); (0, 2); (2, 1); (2, 0); (2, 2)]%nat
+  /\ assemble 3 (zeros 0%Z 3) (with_values (fun a b => Z.of_nat (3 * a + b)) (scorer_write_indices chars [[[49; 46; 66]; [49; 46; 65]]%Z]))
+     = [[0; 1; 6]; [1; 4; 7]; [6; 7; 8]]%Z.   (* (1,0) wrote 3, the later (0,1) wrote 1: both cells hold 1 *)
+Proof. cbv zeta. split; vm_compute; reflexivity. Qed.
+
+(* K9 - tree calculation: the distance matrix (basic/ops.py wl2dst, mode swadesh) handed to UPGMA /
+   Neighbor-Joining is the same for ANY two enumerations of the concepts *)
+Theorem C18_tree_distances_perm_invariant :
+  forall (rows rows' : list str) (dicts : list cogdict),
+    Permutation rows rows' -> wl2dst rows dicts = wl2dst rows' dicts.
+Proof. exact wl2dst_perm_invariant. Qed.
+Print Assumptions C18_tree_distances_perm_invariant.
+
+Theorem C18_tree_distances_order_invariant :
+  forall (lower : str -> str) (vals o1 o2 : list str) (dicts : list cogdict),
+    set_enum vals o1 -> set_enum vals o2 ->
+    wl2dst (unique_sorted lower o1) dicts = wl2dst (unique_sorted lower o2) dicts.
+Proof. exact tree_distances_order_invariant. Qed.
+Print Assumptions C18_tree_distances_order_invariant.
+
+(* ... symmetric with a zero diagonal, every entry a distance in [0, 1] *)
+Theorem C18_tree_distances_symmetric :
+  forall (rows : list str) (dicts : list cogdict) (i j : nat),
+    (i < length dicts)%nat -> (j < length dicts)%nat ->
+    qmget (wl2dst rows dicts) i j = qmget (wl2dst rows dicts) j i /\
+    qmget (wl2dst rows dicts) i i = 0%Q.
+Proof. exact wl2dst_symmetric. Qed.
+Print Assumptions C18_tree_distances_symmetric.
+
+Theorem C18_tree_distance_range :
+  forall (rows : list str) (dA dB : cogdict),
+    (0 <= swadesh_score rows dA dB)%Q /\ (swadesh_score rows dA dB <= 1)%Q.
+Proof. exact swadesh_score_range. Qed.
+Print Assumptions C18_tree_distance_range.
+
+Example tree_distances_instance :
+  let rows := [[97]; [98]; [99]; [100]]%Z in let rows' := [[100]; [98]; [97]; [99]]%Z in
+  let dA : cogdict := [([97]%Z, [1; 2]%Z); ([98]%Z, [3]%Z); ([99]%Z, [5]%Z)] in
+  let dB : cogdict := [([98]%Z, [4]%Z); ([97]%Z, [2]%Z); ([99]%Z, [5; 6]%Z)] in
+  Permutation rows rows' /\
+  wl2dst rows [dA; dB] = [[0; 1 - (2 # 3)]; [1 - (2 # 3); 0]]%Q /\
+  wl2dst rows' [dA; dB] = [[0; 1 - (2 # 3)]; [1 - (2 # 3); 0]]%Q.
+Proof.
+  cbv zeta. split; [|split; vm_compute; reflexivity].
+  apply NoDup_Permutation.
+  - apply nodupb_spec. vm_compute. reflexivity.
+  - apply nodupb_spec. vm_compute. reflexivity.
+  - intros x. rewrite <- !memb_spec.
+    assert (E : forall y, memb y [[97]; [98]; [99]; [100]]%Z = memb y [[100]; [98]; [97]; [99]]%Z).
+    { intros y. unfold memb. cbn [existsb]. destruct (str_eqb y [97%Z]); destruct (str_eqb y [98%Z]);
+      destruct (str_eqb y [99%Z]); destruct (str_eqb y [100%Z]); reflexivity. }
+    rewrite E. reflexivity.
+Qed.
+
 (* repeated analyses on one object *)
 Theorem C18_cluster_idempotent :
   forall (B S P Pq R C N : Type) (name_eqb : N -> N -> bool),
@@ -278,12 +356,13 @@ Theorem C18_kernels_order_invariant_partial :
   (forall inp inter1 inter2, inter_ok inp inter1 -> inter_ok inp inter2 ->
       lex_pairs inp inter1 = lex_pairs inp inter2) /\
   (forall vals setvals o1 o2, set_enum setvals o1 -> set_enum setvals o2 ->
-      renumber_col vals o1 = renumber_col vals o2).
+      renumber_col vals o1 = renumber_col vals o2) /\
+  (forall rows rows' dicts, Permutation rows rows' -> wl2dst rows dicts = wl2dst rows' dicts).
 Proof.
   exact (conj wl_build_order_invariant
         (conj (fun width vals o1 o2 r1 r2 H1 H2 R1 R2 =>
                  conj (lex_chars_order_invariant width vals o1 o2 H1 H2)
                       (lex_rchars_order_invariant vals o1 o2 r1 r2 H1 H2 R1 R2))
-        (conj lex_pairs_order_invariant renumber_order_invariant))).
+        (conj lex_pairs_order_invariant (conj renumber_order_invariant wl2dst_perm_invariant)))).
 Qed.
 Print Assumptions C18_kernels_order_invariant_partial.
